@@ -53,6 +53,7 @@ fn info(exec: bool) -> SectionOutputInfo<'static, Elf> {
 #[kani::stub(tracing::__macro_support::__is_enabled, tstubs::verif_tracing_not_enabled)]
 #[kani::stub(tracing::Event::dispatch, tstubs::verif_tracing_event_dispatch_noop)]
 #[kani::stub(tracing::Span::new, tstubs::verif_tracing_span_none)]
+#[kani::stub(perfetto_recorder::record_event, tstubs::verif_perfetto_record_noop)]
 fn c11_non_primary_text_size_counts_every_other_executable_part() {
     let nsingle = NUM_SINGLE_PART_SECTIONS as usize;
     // which sections are executable: single-part section number `s_idx` and the regular ones
